@@ -12,6 +12,9 @@
 
 //#include <type_traits>
 #include "mpi_dispatcher.hpp"
+#ifdef POMEROL_VERIF
+#include "verif_hooks.hpp"
+#endif
 
 namespace pMPI {
 
@@ -46,6 +49,11 @@ std::map<pMPI::JobId, pMPI::WorkerId> mpi_skel<WrapType>::run(const boost::mpi::
 {
     int rank = comm.rank();
     int comm_size = comm.size(); 
+#ifdef POMEROL_VERIF
+    pMPI::verif::next_round();
+    pMPI::verif::event("round_begin", rank, (long)parts.size());
+    pMPI::verif::event("comm_size", comm_size);
+#endif
     comm.barrier();
     if (rank==0) { std::cout << "Calculating " << parts.size() << " jobs using " << comm_size << " procs." << std::endl; };
 
@@ -66,20 +74,44 @@ std::map<pMPI::JobId, pMPI::WorkerId> mpi_skel<WrapType>::run(const boost::mpi::
 
     // Start calculating data
     for (pMPI::MPIWorker worker(comm,ROOT);!worker.is_finished();) {
+#ifdef POMEROL_VERIF
+        pMPI::verif::delay(1);
+#endif
         if (rank == ROOT) disp->order(); 
         worker.receive_order(); 
+#ifdef POMEROL_VERIF
+        pMPI::verif::delay(2);
+#endif
         if (worker.is_working()) { // for a specific worker
             JobId p = worker.current_job();
             if (VerboseOutput) std::cout << "["<<p+1<<"/"<<parts.size()<< "] P" << comm.rank() 
                                          << " : part " << p << " [" << parts[p].complexity << "] run;" << std::endl;
+#ifdef POMEROL_VERIF
+            pMPI::verif::event("job_begin", p, rank);
+            pMPI::verif::delay(3);
+#endif
             parts[p].run(); 
+#ifdef POMEROL_VERIF
+            pMPI::verif::event("job_end", p, rank);
+            pMPI::verif::delay(4);
+#endif
             worker.report_job_done(); 
         };
+#ifdef POMEROL_VERIF
+        pMPI::verif::delay(5);
+#endif
         if (rank == ROOT) disp->check_workers(); // check if there are free workers 
     };
+#ifdef POMEROL_VERIF
+    pMPI::verif::event("loop_exit", rank);
+    pMPI::verif::event("world_barrier_enter", rank);
+#endif
     // at this moment all communication is finished
     //comm.barrier();
     MPI_Barrier(MPI_COMM_WORLD);
+#ifdef POMEROL_VERIF
+    pMPI::verif::event("world_barrier_leave", rank);
+#endif
     // Now spread the information, who did what.
 	if (VerboseOutput && rank==ROOT) std::cout << "done." << std::endl;
     comm.barrier();
@@ -105,6 +137,11 @@ std::map<pMPI::JobId, pMPI::WorkerId> mpi_skel<WrapType>::run(const boost::mpi::
         boost::mpi::broadcast(comm, workers, ROOT);
         for (size_t i=0; i<jobs.size(); i++) job_map[jobs[i]] = workers[i]; 
     }
+#ifdef POMEROL_VERIF
+    for (std::map<pMPI::JobId, pMPI::WorkerId>::const_iterator vit = job_map.begin(); vit != job_map.end(); ++vit)
+        pMPI::verif::event("map", vit->first, vit->second);
+    pMPI::verif::event("round_end", rank, (long)job_map.size());
+#endif
     return job_map;
 }
 
